@@ -34,3 +34,51 @@ def header_from_val(h):
 
 def val_from_header(h):
     return [h.nVersion, h.hashPrevBlock, h.hashMerkleRoot, h.nTime, h.nBits, h.nNonce]
+
+
+# ---- the same value obtained another way: parsed from an accepted but non-canonical encoding ----
+import struct as _struct
+
+
+def _cs(n, nonmin):
+    if nonmin and n <= 0xffff:
+        return b'\xfd' + _struct.pack('<H', n)
+    if n < 253:
+        return bytes([n])
+    if n <= 0xffff:
+        return b'\xfd' + _struct.pack('<H', n)
+    if n <= 0xffffffff:
+        return b'\xfe' + _struct.pack('<I', n)
+    return b'\xff' + _struct.pack('<Q', n)
+
+
+def noncanonical_bytes(v, style):
+    """style 1: every CompactSize in its 3-byte form; style 2: segwit marker+flag although every
+    witness stack is empty (only when the value has no witness data)"""
+    ver, vin, vout, wit, lock = v
+    nm = style == 1
+    vbs = lambda x: _cs(len(x), nm) + bytes(x)   # noqa: E731
+    body = _cs(len(vin), nm) + b''.join(bytes(i[0]) + _struct.pack('<I', i[1]) + vbs(i[2]) + _struct.pack('<I', i[3]) for i in vin)
+    body += _cs(len(vout), nm) + b''.join(_struct.pack('<q', o[0]) + vbs(o[1]) for o in vout)
+    has = any(len(st) > 0 for st in wit)
+    if has or style == 2:
+        stacks = list(wit) + [[]] * (len(vin) - len(wit))
+        w = b''.join(_cs(len(st), nm) + b''.join(vbs(x) for x in st) for st in stacks[:len(vin)])
+        return _struct.pack('<i', ver) + b'\x00\x01' + body + w + _struct.pack('<I', lock)
+    return _struct.pack('<i', ver) + body + _struct.pack('<I', lock)
+
+
+def tx_from_val_any(v, mutable=False, style=0):
+    """tx_from_val, or - when the library accepts it and it denotes the same value - the object the
+    library's own parser builds from a non-canonical encoding of v (how an object was obtained must
+    not matter to any property)."""
+    direct = tx_from_val(v, mutable)
+    if not style or len(v[1]) == 0:
+        return direct
+    try:
+        obj = CTransaction.deserialize(noncanonical_bytes(v, style))
+        if obj.serialize() != direct.serialize() or val_from_tx(obj)[:3] != val_from_tx(direct)[:3]:
+            return direct
+    except Exception:  # noqa
+        return direct
+    return CMutableTransaction.from_tx(obj) if mutable else obj
